@@ -458,8 +458,12 @@ class CatalogWriter(AbstractContextManager, HandlesDataChunk):
     def __enter__(self) -> Self:
         return self
 
-    def __exit__(self, *args, **kwargs) -> None:
-        self.finalize()
+    def __exit__(self, exc_type, *args, **kwargs) -> None:
+        if exc_type is None:
+            self.finalize()
+        else:  # never mark a catalog as complete if writing it has failed
+            for writer in self.writers.values():
+                writer.close()
 
     @property
     def num_patches(self) -> int:
